@@ -4,7 +4,7 @@
    parsed Go output).  Spec: Spec/VisView.v (sequence of shown values), and for plain component trees
    the written operator tree itself. *)
 From Coq Require Import List Strings.Byte.
-From IGP Require Import Base.Str Base.Outcome Model.Tree Model.Visual Model.VisJson Spec.VisView Proofs.VisJsonProof Proofs.VisViewProof Gen.Wiring Tie.C08_tie.
+From IGP Require Import Base.Str Base.Outcome Model.Tree Model.Visual Model.VisJson Spec.VisView Proofs.VisJsonProof Proofs.VisViewProof Gen.Wiring Tie.C08_tie Tie.C09_tie.
 Import ListNotations.
 
 (* every statement, every option vector: the values read back from the output - in document order, with
@@ -17,6 +17,16 @@ Theorem C09_values : forall T o fuel s n a lvl js,
 Proof. exact (fun T o fuel => jn_lv T o fuel). Qed.
 Print Assumptions C09_values.
 
+(* the component list of the printer as it stands in the source is the documented one, so the specification evaluated
+   with the documented list (the one compared with the implementation's output) is the specification of C09_values at
+   the regenerated tables; and the documented list leaves no field of a statement out and names none twice *)
+Theorem C09_printer_component_list_is_documented : spec_vis vis_T = vis_T.
+Proof. exact printer_component_list_is_documented. Qed.
+Print Assumptions C09_printer_component_list_is_documented.
+Theorem C09_no_component_left_out : forall front : bool,
+  length (shown_fields front) = 17 /\ DoV.nodup_f (shown_fields front) = true /\ forall f, reached front f = true.
+Proof. exact documented_list_complete. Qed.
+Print Assumptions C09_no_component_left_out.
 (* what the specification says for a component tree of plain values (statement without properties):
    the leaves in source order, each once, with inherited shared text, under the component's name *)
 Theorem C09_plain_component_values : forall T s, (forall name, get_props T s name = []) ->
